@@ -22,7 +22,7 @@ def classify(case_line):
 CFG = dict(
     imports=["From Verif.C42 Require Import Model Spec ModelMg Check3."],
     checker="check_case3",
-    n=dict(quick=80, thorough=3000),
+    n=dict(quick=80, thorough=960),
     shard=30,
     classify=classify,
     rule="histories of 3-8 Syncer.Apply calls on the real bpf/proxy.Syncer over recording in-memory NAT maps: 1-6 services "
